@@ -5,10 +5,13 @@ import (
 	"fmt"
 	"math"
 	"math/big"
+	"reflect"
 	"regexp"
 	"sort"
 	"strings"
 	"unicode/utf8"
+
+	"github.com/google/jsonschema-go/jsonschema"
 
 	"verif/engine/smt"
 	"verif/engine/sx"
@@ -34,6 +37,8 @@ func nodeTerms(m *sx.Machine, nodes []*sx.Node) []*smt.Term {
 		add(n.Esel)
 		add(n.Len)
 		add(n.Rep)
+		add(n.CRep)
+		add(n.Wrap)
 		add(n.IVal)
 		add(n.JN)
 		add(n.JK)
@@ -223,8 +228,98 @@ type ConcreteInstance struct {
 	JSON      string
 }
 
-// Concretize builds the instance denoted by node n under model md.
+var anyRT = reflect.TypeOf((*any)(nil)).Elem()
+
+// goType returns the Go type of the node's value (without wrappers) in the model; nil for null.
+func goType(md Model, n *sx.Node) reflect.Type {
+	switch md.Int(n.Tag) {
+	case sx.TagNull:
+		return nil
+	case sx.TagBool:
+		return reflect.TypeOf(false)
+	case sx.TagString:
+		if md.Int(n.CRep) == sx.CRepTyped {
+			return reflect.TypeOf(jsonschema.VerifStr(""))
+		}
+		return reflect.TypeOf("")
+	case sx.TagArray:
+		switch md.Int(n.CRep) {
+		case sx.CRepTyped:
+			return reflect.SliceOf(elemType(md, n.Elem(0)))
+		case sx.CRepAlt:
+			return reflect.ArrayOf(int(md.Int(n.Len)), anyRT)
+		}
+		return reflect.TypeOf([]any(nil))
+	case sx.TagObject:
+		switch md.Int(n.CRep) {
+		case sx.CRepTyped:
+			return reflect.MapOf(reflect.TypeOf(""), elemType(md, n.Val(0)))
+		case sx.CRepAlt:
+			return reflect.TypeOf(map[jsonschema.VerifKey]any(nil))
+		}
+		return reflect.TypeOf(map[string]any(nil))
+	}
+	switch int(md.Int(n.Rep)) {
+	case sx.RepFloat64:
+		return reflect.TypeOf(float64(0))
+	case sx.RepFloat32:
+		return reflect.TypeOf(float32(0))
+	case sx.RepInt:
+		return reflect.TypeOf(int(0))
+	case sx.RepInt8:
+		return reflect.TypeOf(int8(0))
+	case sx.RepInt16:
+		return reflect.TypeOf(int16(0))
+	case sx.RepInt32:
+		return reflect.TypeOf(int32(0))
+	case sx.RepInt64:
+		return reflect.TypeOf(int64(0))
+	case sx.RepUint:
+		return reflect.TypeOf(uint(0))
+	case sx.RepUint8:
+		return reflect.TypeOf(uint8(0))
+	case sx.RepUint16:
+		return reflect.TypeOf(uint16(0))
+	case sx.RepUint32:
+		return reflect.TypeOf(uint32(0))
+	case sx.RepUint64:
+		return reflect.TypeOf(uint64(0))
+	case sx.RepUintptr:
+		return reflect.TypeOf(uintptr(0))
+	case sx.RepJSONNumber:
+		return reflect.TypeOf(json.Number(""))
+	}
+	return nil
+}
+
+func elemType(md Model, first *sx.Node) reflect.Type {
+	t := goType(md, first)
+	if t == nil {
+		return anyRT
+	}
+	return t
+}
+
+// Concretize builds the instance denoted by node n under model md, in the Go
+// representation the model selects.
 func Concretize(m *sx.Machine, md Model, n *sx.Node, sr *StringRealizer) (any, error) {
+	v, err := concretizeInner(m, md, n, sr)
+	if err != nil {
+		return nil, err
+	}
+	if md.Int(n.Wrap) > 0 {
+		t := goType(md, n)
+		if t == nil {
+			return (*int)(nil), nil // typed nil pointer
+		}
+		p := reflect.New(t)
+		p.Elem().Set(reflect.ValueOf(v))
+		return p.Interface(), nil
+	}
+	return v, nil
+}
+
+func concretizeInner(m *sx.Machine, md Model, n *sx.Node, sr *StringRealizer) (any, error) {
 	switch md.Int(n.Tag) {
 	case sx.TagNull:
 		return nil, nil
@@ -237,32 +332,109 @@ func Concretize(m *sx.Machine, md Model, n *sx.Node, sr *StringRealizer) (any, e
 		if !ok {
 			return nil, fmt.Errorf("unrealizable string: %s", sr.Failed)
 		}
+		if md.Int(n.CRep) == sx.CRepTyped {
+			return jsonschema.VerifStr(s), nil
+		}
 		return s, nil
 	case sx.TagArray:
 		l := int(md.Int(n.Len))
-		out := make([]any, l)
+		t := goType(md, n)
+		var out reflect.Value
+		if t.Kind() == reflect.Array {
+			out = reflect.New(t).Elem()
+		} else {
+			out = reflect.MakeSlice(t, l, l)
+		}
 		for i := 0; i < l; i++ {
 			e, err := Concretize(m, md, n.Elem(i), sr)
 			if err != nil {
 				return nil, err
 			}
-			out[i] = e
+			if e != nil {
+				ev := reflect.ValueOf(e)
+				if !ev.Type().AssignableTo(t.Elem()) {
+					return nil, fmt.Errorf("model element type %s not assignable to %s", ev.Type(), t.Elem())
+				}
+				out.Index(i).Set(ev)
+			}
 		}
-		return out, nil
+		return out.Interface(), nil
 	case sx.TagObject:
-		out := map[string]any{}
+		t := goType(md, n)
+		out := reflect.MakeMap(t)
 		for i, k := range n.Tm.Keys {
 			if md.Bool(n.Present[i]) {
 				e, err := Concretize(m, md, n.Val(i), sr)
 				if err != nil {
 					return nil, err
 				}
-				out[k] = e
+				kv := reflect.ValueOf(k).Convert(t.Key())
+				if e == nil {
+					out.SetMapIndex(kv, reflect.Zero(t.Elem()))
+					continue
+				}
+				ev := reflect.ValueOf(e)
+				if !ev.Type().AssignableTo(t.Elem()) {
+					return nil, fmt.Errorf("model value type %s not assignable to %s", ev.Type(), t.Elem())
+				}
+				out.SetMapIndex(kv, ev)
 			}
 		}
-		return out, nil
+		return out.Interface(), nil
 	}
 	return nil, fmt.Errorf("bad tag in model")
+}
+
+// Canon converts any Go representation of a JSON value into the oracle's constant form:
+// nil, bool, *big.Rat (exact), string, []any, map[string]any.
+func Canon(v any) any {
+	return canonRV(reflect.ValueOf(v))
+}
+
+func canonRV(v reflect.Value) any {
+	for v.IsValid() && (v.Kind() == reflect.Pointer || v.Kind() == reflect.Interface) {
+		v = v.Elem()
+	}
+	if !v.IsValid() {
+		return nil
+	}
+	if v.Type() == reflect.TypeOf(json.Number("")) {
+		r, ok := new(big.Rat).SetString(v.String())
+		if !ok {
+			return v.String()
+		}
+		return r
+	}
+	switch v.Kind() {
+	case reflect.Bool:
+		return v.Bool()
+	case reflect.Int, reflect.Int8, reflect.Int16, reflect.Int32, reflect.Int64:
+		return new(big.Rat).SetInt64(v.Int())
+	case reflect.Uint, reflect.Uint8, reflect.Uint16, reflect.Uint32, reflect.Uint64, reflect.Uintptr:
+		return new(big.Rat).SetInt(new(big.Int).SetUint64(v.Uint()))
+	case reflect.Float32, reflect.Float64:
+		r := new(big.Rat).SetFloat64(v.Float())
+		if r == nil {
+			return v.Float()
+		}
+		return r
+	case reflect.String:
+		return v.String()
+	case reflect.Slice, reflect.Array:
+		out := make([]any, v.Len())
+		for i := range out {
+			out[i] = canonRV(v.Index(i))
+		}
+		return out
+	case reflect.Map:
+		out := map[string]any{}
+		it := v.MapRange()
+		for it.Next() {
+			out[it.Key().String()] = canonRV(it.Value())
+		}
+		return out
+	}
+	return fmt.Sprintf("<non-JSON %s>", v.Type())
 }
 
 func concretizeNumber(m *sx.Machine, md Model, n *sx.Node) (any, error) {
@@ -329,36 +501,61 @@ func decimalString(num *big.Int, k int) string {
 
 // DescribeGo renders a Go value with its types (for replay files and samples).
 func DescribeGo(v any) string {
-	switch x := v.(type) {
-	case nil:
+	if v == nil {
 		return "nil"
-	case []any:
-		var parts []string
-		for _, e := range x {
-			parts = append(parts, DescribeGo(e))
+	}
+	return describeRV(reflect.ValueOf(v))
+}
+
+func describeRV(v reflect.Value) string {
+	if !v.IsValid() {
+		return "nil"
+	}
+	t := v.Type()
+	switch v.Kind() {
+	case reflect.Interface:
+		if v.IsNil() {
+			return "nil"
 		}
-		return "[]any{" + strings.Join(parts, ", ") + "}"
-	case map[string]any:
+		return describeRV(v.Elem())
+	case reflect.Pointer:
+		if v.IsNil() {
+			return fmt.Sprintf("(%s)(nil)", t)
+		}
+		return "&" + describeRV(v.Elem())
+	case reflect.Slice, reflect.Array:
+		var parts []string
+		for i := 0; i < v.Len(); i++ {
+			parts = append(parts, describeRV(v.Index(i)))
+		}
+		return t.String() + "{" + strings.Join(parts, ", ") + "}"
+	case reflect.Map:
 		var ks []string
-		for k := range x {
-			ks = append(ks, k)
+		byKey := map[string]reflect.Value{}
+		it := v.MapRange()
+		for it.Next() {
+			ks = append(ks, it.Key().String())
+			byKey[it.Key().String()] = it.Value()
 		}
 		sort.Strings(ks)
 		var parts []string
 		for _, k := range ks {
-			parts = append(parts, fmt.Sprintf("%q: %s", k, DescribeGo(x[k])))
+			parts = append(parts, fmt.Sprintf("%q: %s", k, describeRV(byKey[k])))
 		}
-		return "map[string]any{" + strings.Join(parts, ", ") + "}"
-	case string:
-		return fmt.Sprintf("%q", x)
-	case float64:
-		return fmt.Sprintf("float64(%s)", formatFloat(x))
-	case float32:
-		return fmt.Sprintf("float32(%s)", formatFloat(float64(x)))
-	case json.Number:
-		return fmt.Sprintf("json.Number(%q)", string(x))
+		return t.String() + "{" + strings.Join(parts, ", ") + "}"
+	case reflect.String:
+		if t.Name() == "string" {
+			return fmt.Sprintf("%q", v.String())
+		}
+		return fmt.Sprintf("%s(%q)", t, v.String())
+	case reflect.Float64:
+		return fmt.Sprintf("float64(%s)", formatFloat(v.Float()))
+	case reflect.Float32:
+		return fmt.Sprintf("float32(%s)", formatFloat(v.Float()))
+	case reflect.Bool:
+		return fmt.Sprint(v.Bool())
 	}
-	return fmt.Sprintf("%T(%v)", v, v)
+	return fmt.Sprintf("%s(%v)", t, v)
 }
 
 func formatFloat(f float64) string {
